@@ -430,12 +430,18 @@ func (s *MemCachedStore) persist(isSync bool) (int, error) {
 		s.ps = tempstore.ps
 	} else {
 		// We're toast. We'll try to still keep proper state, but OOM
-		// killer will get to us eventually.
-		maps.Copy(tempstore.mem, s.mem)
-		maps.Copy(tempstore.stor, s.stor)
+		// killer will get to us eventually. Tempstore maps can still be
+		// used by concurrent readers (without any locks), so merge old
+		// and new data into fresh maps instead of changing them.
+		mem := make(map[string][]byte, len(tempstore.mem)+len(s.mem))
+		maps.Copy(mem, tempstore.mem)
+		maps.Copy(mem, s.mem)
+		stor := make(map[string][]byte, len(tempstore.stor)+len(s.stor))
+		maps.Copy(stor, tempstore.stor)
+		maps.Copy(stor, s.stor)
 		s.ps = tempstore.ps
-		s.mem = tempstore.mem
-		s.stor = tempstore.stor
+		s.mem = mem
+		s.stor = stor
 	}
 	s.mut.Unlock()
 	return keys, err
